@@ -11,8 +11,8 @@ CONSTANTS Coef2 <- R22
  BS = 8
  BS0 = 13
  K = 12
- Emitting = TRUE
 INVARIANT TypeOK
+INVARIANT OrigInClass
 INVARIANT RealSound
 INVARIANT ContrSound
 INVARIANT DarkSound
@@ -20,5 +20,5 @@ INVARIANT ExactComplete
 INVARIANT FMExact
 INVARIANT BoxStable
 INVARIANT SpecialisationOK
-POSTCONDITION Emit
+POSTCONDITION Covered
 CHECK_DEADLOCK FALSE
